@@ -46,16 +46,20 @@ class DelayPackages(ContentEvaluationResultBasedPackageResolver):
 
 # ---- evaluators written the way a user writes them: one evaluate_<key> method per condition, some async, some not ----------------
 def _rc_method(key: str, is_async: bool):
-    def value():
+    def value(k=key):
         try:
-            return evalenv.current_cer.get().requirement_constraints[key]
+            return evalenv.current_cer.get().requirement_constraints[k]
         except KeyError as e:
-            raise NotImplementedError(f"No result was provided for condition '{key}'.") from e
+            raise NotImplementedError(f"No result was provided for condition '{k}'.") from e
 
     if is_async:
         async def method(self, evaluatable_data, context):  # pylint:disable=unused-argument
+            # as a user evaluator may do: narrow the scope of the context it was handed, wait for I/O, then evaluate within the scope it finds there.
+            # Every call owns its context object, so it finds its own scope again -- unless the library shares one context between calls.
+            context.scope = f"$.{key}"
             await sleeps("rc", key)
-            return value()
+            seen = context.scope[2:] if isinstance(context.scope, str) and context.scope.startswith("$.") else key
+            return value(seen)
     else:
         def method(self, evaluatable_data, context):  # pylint:disable=unused-argument
             COMPLETIONS.append(("rc", key))
